@@ -20,7 +20,7 @@ EXPLANATION = (
 
 def run(tier: str) -> Check:
     check = Check("C14", tier, EXPLANATION)
-    check.rules = ["LINES"]
+    check.rules = ["LINES", "CACHE-ALIAS"]
     check.assumptions = [
         "texts with \\n line breaks, as the property states (splitlines() also breaks at \\r, \\x0b, \\x0c, \\x1c-\\x1e, \\x85, \\u2028, \\u2029: outside the property)",
         "the completeness of the abstraction (lines of length 0..2, at most three lines) for code that only adds piece lengths and compares offsets is a paper argument (DESIGN §13), not machine-checked",
@@ -43,5 +43,9 @@ def run(tier: str) -> Check:
     for cat, msgs in sorted(cats.items()):
         construct = "src/pest/pairs.py::" + (cat.split(" ")[0] if cat.split(" ")[0].count(".") == 1 else "Span")
         check.oblige("LINES", construct, cat, False, sample=True, finding=Finding("LINES", construct, cat, f"{cat}: e.g. {msgs[0]} ({len(msgs)} of {n} model points)", {"witness": msgs[0]}))
+    # the utilities hand out lists of lines: none of them may be a list a memoised helper keeps (sa/cachealias.py)
+    from .. import cachealias
+
+    cachealias.run(check, repo, ["src/pest/pairs.py"])
     check.floor("line_model_points", 1500)
     return check
